@@ -317,11 +317,13 @@ PROPS["C15"] = dict(
                "by rule R12); the fee rate of one transaction is verified for BOTH paths against one spec function tx_rate_spec(tx, input sum): the post-upgrade "
                "recomputation get_tx_fee_per_byte (whole function) and the insertion-time statement of insert_outpoints (slice) — so recomputed and cached rates agree "
                "whenever the input sums agree. PARTIAL: the fallback pipeline that maps get_tx_fee_per_byte over a block's transactions (filter_map/collect), the "
-               "input-sum bookkeeping of insert_outpoints (entry-API maps) and the sort/map/collect of percentiles are assumed as uninterpreted functions",
+               "input-sum bookkeeping of insert_outpoints (entry-API maps) are assumed as uninterpreted functions; percentiles() is verified as a WHOLE against 'nothing, or exactly "
+               "101 values, the p-th being the nearest-rank percentile p of the sorted values' (slice::sort_unstable is an assumed specification; the map/collect over 0..=100 "
+               "is desugared, R18); lemma_percentiles_non_decreasing proves the 101 values non-decreasing",
     explanation="the closure bodies of `percentiles` are lifted as R8 slices (ceil_div, the per-percentile pick, the constant 100).",
     unverified_links=[
         "fee_percentiles.rs:110-116 the fallback `txdata().iter().filter_map(get_tx_fee_per_byte).collect()`; outpoints_cache.rs insert_outpoints: how input_sum is accumulated (cache / same-block / UTXO-set lookups)",
-        "percentiles(): sort_unstable + (0..=100).map(closure).collect() glue around the verified slices; empty input => empty output (by inspection)",
+        "slice::sort_unstable (assumed specification: the ascending permutation)",
     ],
     assumptions=COMMON_ASSUMPTIONS + ["fee < 2^64/1000 satoshi; the inputs of one transaction sum to < 2^64/1000 satoshi; at most 2^25 fee rates", "the previous outputs spent by a transaction of an unstable block are in the TxOut cache (precondition of get_tx_fee_per_byte; the repo traps otherwise)"],
 )
